@@ -510,6 +510,12 @@ class TorControlProtocol(LineOnlyReceiver):
             d.errback(RuntimeError("Expected an even number of arguments."))
             return d
         strargs = [str(x) for x in args]
+        for s in strargs:
+            if '\r' in s or '\n' in s:
+                # a line-break would start a new command
+                d = defer.Deferred()
+                d.errback(RuntimeError("Line-breaks not allowed in SETCONF arguments."))
+                return d
         keys = [strargs[i] for i in range(0, len(strargs), 2)]
         values = [strargs[i] for i in range(1, len(strargs), 2)]
 
